@@ -962,23 +962,28 @@ class C10(Prop):
     v = unwval(case['v'])
     pre, post, lookup, pre_sym = [], [], [], []
 
-    lookup_str, strs, hist = [], [], []
+    lookup_str, strs, hist, ident, ident_str = [], [], [], [], []
 
     def pre_fn(path, x):
       pre.append(wpath(path.keys))
       try:
         r = path.query(v)
-        lookup.append('same' if r is x else 'diff')
+        # compared with the model (which is over trees): structural equality; identity is kept apart
+        lookup.append('same' if (r is x or (type(r) is type(x) and r == x)) else 'diff')
+        ident.append(r is x)
       except Exception as e:     # pylint: disable=broad-except
         lookup.append(type(e).__name__)
+        ident.append(False)
       # what every real visitor does: print the path (so children are built from a formatted parent)
       s = str(path)
       strs.append(cps(s))
       try:
         r = KeyPath.parse(s).query(v)
-        lookup_str.append('same' if r is x else 'diff')
+        lookup_str.append('same' if (r is x or (type(r) is type(x) and r == x)) else 'diff')
+        ident_str.append(r is x)
       except Exception as e:     # pylint: disable=broad-except
         lookup_str.append(type(e).__name__)
+        ident_str.append(False)
       fresh = KeyPath(list(path.keys))
       hist.append([cps(str(fresh)), hash(path) == hash(fresh), bool(path == fresh), bool(fresh == path),
                    bool(path == str(fresh))])
@@ -1016,7 +1021,7 @@ class C10(Prop):
         out['canon_flat_' + name] = wval(utils.canonicalize(f))
       except Exception as e:     # pylint: disable=broad-except
         out['canon_flat_' + name] = _exc(e)
-    return {'model': out, 'pre_sym': pre_sym, 'post_sym': post_sym, 'hist': hist, 'sym_strs': sym_strs, 'all_q': [cps(k) for k in all_q.keys()],
+    return {'model': out, 'pre_sym': pre_sym, 'post_sym': post_sym, 'hist': hist, 'ident': ident, 'ident_str': ident_str, 'sym_strs': sym_strs, 'all_q': [cps(k) for k in all_q.keys()],
             'leaves_rx': wval(dict(leaves_rx))}
 
   # -- the property itself ----------------------------------------------------------------
@@ -1257,8 +1262,9 @@ class C10(Prop):
                         'more than once: %r' % (name, len(log), len(want), missing[:6], twice[:6])}
     if out['pre_sym'] != m['pre'] or out['post_sym'] != m['post']:
       return {'signature': 'traverse:pg-vs-utils', 'what': 'pg.traverse and utils.traverse disagree: %r vs %r' % (out['pre_sym'], m['pre'])}
-    for p, l in zip(m['pre'], m['lookup']):
-      if l != 'same':
+    for p, l, idn in zip(m['pre'], m['lookup'], out['ident']):
+      if l != 'same' or not idn:
+        l = l if l != 'same' else 'equal-but-not-the-node'
         return {'signature': 'lookup:' + l, 'what': 'the visited path %r, looked up from the root, gives %s' % (unwpath(p), l)}
     for p, st, h in zip(m['pre'], m['strs'], out['hist']):
       if st != h[0] or not (h[1] and h[2] and h[3] and h[4]):
@@ -1268,7 +1274,9 @@ class C10(Prop):
     if out['sym_strs'] != m['strs']:
       return {'signature': 'path-depends-on-construction', 'what': 'pg.traverse prints %r, utils.traverse %r' % (
           [uncps(x) for x in out['sym_strs']], [uncps(x) for x in m['strs']])}
-    for p, l in zip(m['pre'], m['lookup_str']):
+    for p, l, idn in zip(m['pre'], m['lookup_str'], out['ident_str']):
+      if l == 'same' and not idn:
+        l = 'equal-but-not-the-node'
       if l != 'same' and all(wf_key(k) for k in unwpath(p)):
         return {'signature': 'lookup-via-str:' + l, 'what': 'the visited path %r, printed (%r), parsed and looked up '
                 'from the root, gives %s' % (unwpath(p), uncps(m['strs'][m['pre'].index(p)]), l)}
